@@ -96,11 +96,19 @@ class Engine(OpsMixin, ExprMixin, CallMixin, StmtMixin, BuiltinsMixin):
         self.py_attr_models = {}
         self.with_models = {}
         self.truth_hooks = {}
+        self.subscript_models = {}
+        self.coerce_hooks = {}
+        self.binder_depth = 0
         self.isinstance_hooks = {}
         self.data_defaults = {}
         self.special_forms = dict(SPECIAL_FORMS)
         self.splitlines_axioms = None
         self._ufs = {}
+        self._comp_cache = {}
+        self.lemmas_used = set()
+        self.using_lemma = 0
+        self.heap_reads = set()
+        self._quant_cache = {}
         self.axioms = []
         self.case_splits = []
         self.abrupt = []
@@ -142,12 +150,11 @@ class Engine(OpsMixin, ExprMixin, CallMixin, StmtMixin, BuiltinsMixin):
 
     # ---- verification of one function against its contract -----------------------------------------
     def index_loops(self, fnode):
-        k = 0
-        for n in ast.walk(fnode):
-            if isinstance(n, (ast.For, ast.While)):
-                self.loop_index[id(n)] = k
-                k += 1
-        return k
+        loops = sorted((n for n in ast.walk(fnode) if isinstance(n, (ast.For, ast.While))),
+                       key=lambda n: (n.lineno, n.col_offset))   # ordinals follow source order
+        for k, n in enumerate(loops):
+            self.loop_index[id(n)] = k
+        return len(loops)
 
     def resolve(self, qualname):
         """qualified name -> (python function object)."""
@@ -196,7 +203,12 @@ class Engine(OpsMixin, ExprMixin, CallMixin, StmtMixin, BuiltinsMixin):
         st.ghost["__alias__"] = {}
         env = {}
         inputs = {}
-        for p, ty in tys.items():
+        is_classmethod = any(isinstance(d, ast.Name) and d.id == "classmethod" for d in fnode.decorator_list)
+        for idx_, (p, ty) in enumerate(tys.items()):
+            if idx_ == 0 and is_classmethod:
+                owner = self.resolve(qualname.rsplit(".", 1)[0])
+                env[p] = py(owner)
+                continue
             if ty is None or ty.kind == "py":
                 pv = c.types.get(p)
                 if pv is not None and not isinstance(pv, str):
@@ -217,6 +229,12 @@ class Engine(OpsMixin, ExprMixin, CallMixin, StmtMixin, BuiltinsMixin):
         if c.decreases is not None:
             self.current_measure = self.eval_spec_fn(st, c.decreases, env)
         pre_state = st.copy()
+        # materialise every declared heap field so that frame conditions can be stated against the entry heap
+        for cls_, flds_ in self.reg.fields.items():
+            if self.reg.kind.get(cls_) == "ref":
+                for f_ in flds_:
+                    self.heap_array(st, cls_, f_)
+        pre_state.heap = dict(st.heap)
         finals = self.exec_block(fnode.body, st.copy())
         exits = collections.Counter()
         for s in finals:
@@ -258,6 +276,8 @@ class Engine(OpsMixin, ExprMixin, CallMixin, StmtMixin, BuiltinsMixin):
                                       note="state relation at exceptional exit")
             else:
                 raise Unsupported(f"{qualname}: flow {flow[0]} at function end")
+        for s in finals:
+            self.frame_obligations(s, pre_state, c)
         if not finals:
             raise Unsupported(f"{qualname}: no feasible exit (contradictory precondition?)")
         self.functions_verified.append({
@@ -268,6 +288,23 @@ class Engine(OpsMixin, ExprMixin, CallMixin, StmtMixin, BuiltinsMixin):
         self.current = None
         self.current_measure = None
         return self.vcs[n0:]
+
+    def frame_obligations(self, s, pre_state, c):
+        """Every heap field the body wrote must be listed in the contract's frame (modifies), except on objects
+        the function allocated itself."""
+        allowed = set(c.modifies)
+        news = s.ghost.get("__new__", {})
+        for (cls, fld), arr in s.heap.items():
+            arr0 = pre_state.heap.get((cls, fld))
+            if arr0 is None or arr.eq(arr0) or f"{cls}.{fld}" in allowed:
+                continue
+            o = z3.Const(fresh_name("frame_o"), self.reg.sort(self.reg.ty_of_class(cls)))
+            fresh_objs = [r for r in news.get(cls, [])]
+            goal = z3.Or(*([o == r for r in fresh_objs] + [z3.Select(arr, o) == z3.Select(arr0, o)]))
+            saved = s.flow
+            s.flow = None
+            self.emit(s, f"frame/{cls}.{fld}", goal, note=f"{cls}.{fld} is written but not in the contract's frame")
+            s.flow = saved
 
     def verify_lemma(self, lem, prop):
         self.axioms = []
